@@ -63,9 +63,10 @@ public:
     auto operator--() -> bit_range& { bit_advance(-RangeSize); return *this; }
 
     void bit_advance(difference_type num_bits) {
-        int new_offset = int(_bit_offset+num_bits);
+        // keep the offset in difference_type: narrowing it to int sent advances of 2^31 bits or more backwards
+        difference_type new_offset = _bit_offset+num_bits;
         _current_byte += new_offset / 8;
-        _bit_offset    = new_offset % 8;
+        _bit_offset    = int(new_offset % 8);
         if (_bit_offset<0) {
             _bit_offset+=8;
             --_current_byte;
